@@ -80,7 +80,7 @@ ASSUMPTIONS = {
 EXPECTED_PROBES = {
     "C02": ["op:subtree_reconfigure", "op:simulated_anneal", "op:remove_ind", "op:restore_ind", "op:slice",
             "op:sort_contraction_indices", "op:copy", "op:contract", "op:subtree_reconfigure_forest",
-            "op:parallel_temper", "op:slice_and_reconfigure", "probe:projected_tree_contracted",
+            "op:parallel_temper", "op:slice_and_reconfigure", "probe:projected_tree_contracted", "probe:preemptive_task_switches",
             "probe:sliced_tree_contracted", "pool:out_of_order", "probe:contract_after_mutation_with_warm_cache",
             "probe:tree_kept_after_refused_op"],
     "C04": ["op:subtree_reconfigure", "op:simulated_anneal", "op:remove_ind", "op:restore_ind", "op:slice",
@@ -188,8 +188,9 @@ def _gen_pool(rng):
     r = rng.random()
     if r < 0.4:
         return None
-    return {"workers": rng.randint(1, 4), "mode": "thread" if r < 0.7 else "process", "seed": rng.randrange(2 ** 31),
-            "slow": rng.random() < 0.3}
+    mode = "thread" if r < 0.6 else ("process" if r < 0.85 else "thread-preemptive")
+    return {"workers": rng.randint(1, 4), "mode": mode, "seed": rng.randrange(2 ** 31),
+            "slow": rng.random() < 0.3, "switch_p": rng.choice([0.02, 0.1, 0.3])}
 
 
 def _gen_copts(rng, allow_strip=True):
@@ -314,6 +315,40 @@ def _make_pool(spec, clk, stats_sink):
     p = SimPool(clk, workers=spec["workers"], mode=spec["mode"], rng=rng, speed=speed)
     stats_sink.append(p)
     return p
+
+
+def _preempt_wl(base, name, full):
+    from engines.hyper import _preempt_whitelist
+
+    return _preempt_whitelist(base, name, full)
+
+
+def _with_pool(spec, clk, pools, counters, call):
+    """Run ``call(pool)``. For a 'thread-preemptive' pool the call runs as simulated thread 0 of a baton scheduler and
+    the pool's tasks are further simulated threads sharing the caller's objects (a real thread pool)."""
+    if spec is not None and spec.get("mode") == "thread-preemptive":
+        from sim import threads as simthreads
+
+        sched = simthreads.Scheduler(simthreads.WalkChooser(random.Random(spec["seed"]), spec.get("switch_p", 0.05)), _preempt_wl,
+                                     max_points=5_000_000)
+        pool = simthreads.PreemptivePool(sched, spec["workers"])
+        out = {}
+
+        def body():
+            out["r"] = call(pool)
+
+        prev = clk.sleep_hook
+        clk.sleep_hook = lambda: sched.yield_now(sched.index_of_current())
+        try:
+            errs = sched.run([body], [1], [None])
+        finally:
+            clk.sleep_hook = prev
+        pools.append(pool)
+        counters["probe:preemptive_task_switches"] += sched.switches
+        if errs and errs[0] is not None:
+            raise errs[0]
+        return out["r"]
+    return call(_make_pool(spec, clk, pools))
 
 
 class Net:
@@ -553,11 +588,10 @@ def _apply(ctg, op, trees, net, clk, pools, counters, log):
             minimize=op["minimize"], inplace=inplace)
         place(res)
     elif name == "subtree_reconfigure_forest":
-        pool = _make_pool(op.get("pool"), clk, pools)
-        res = tree.subtree_reconfigure_forest(
+        res = _with_pool(op.get("pool"), clk, pools, counters, lambda pool: tree.subtree_reconfigure_forest(
             num_trees=op["num_trees"], num_restarts=op["num_restarts"], restart_fraction=op["restart_fraction"],
             subtree_maxiter=op["subtree_maxiter"], subtree_size=op["subtree_size"], parallel=pool,
-            minimize=op["minimize"], seed=op["seed"], inplace=inplace)
+            minimize=op["minimize"], seed=op["seed"], inplace=inplace))
         place(res)
     elif name == "simulated_anneal":
         res = tree.simulated_anneal(
@@ -566,11 +600,10 @@ def _apply(ctg, op, trees, net, clk, pools, counters, log):
             inplace=inplace)
         place(res)
     elif name == "parallel_temper":
-        pool = _make_pool(op.get("pool"), clk, pools)
-        res = tree.parallel_temper(
+        res = _with_pool(op.get("pool"), clk, pools, counters, lambda pool: tree.parallel_temper(
             tsteps=op["tsteps"], num_trees=op["num_trees"], numiter=op["numiter"], minimize=op["minimize"],
             target_size=op["target_size"], slice_mode=op["slice_mode"], parallel_slice_mode=op["parallel_slice_mode"],
-            max_time=op["max_time"], seed=op["seed"], parallel=pool, inplace=inplace)
+            max_time=op["max_time"], seed=op["seed"], parallel=pool, inplace=inplace))
         place(res)
     elif name == "remove_ind":
         cands = [ix for ix in sorted(net.size_dict) if ix not in tree.sliced_inds]
@@ -614,10 +647,9 @@ def _apply(ctg, op, trees, net, clk, pools, counters, log):
             reconf_opts=dict(op["reconf"]), inplace=inplace)
         place(res)
     elif name == "slice_and_reconfigure_forest":
-        pool = _make_pool(op.get("pool"), clk, pools)
-        res = tree.slice_and_reconfigure_forest(
+        res = _with_pool(op.get("pool"), clk, pools, counters, lambda pool: tree.slice_and_reconfigure_forest(
             target_size=op["target_size"], step_size=op["step_size"], num_trees=op["num_trees"],
-            max_repeats=op["max_repeats"], parallel=pool, reconf_opts=dict(op["reconf"]), inplace=inplace)
+            max_repeats=op["max_repeats"], parallel=pool, reconf_opts=dict(op["reconf"]), inplace=inplace))
         place(res)
     elif name == "sort_contraction_indices":
         tree.sort_contraction_indices(priority=op["priority"], make_output_contig=op["make_output_contig"],
